@@ -328,6 +328,8 @@ def load_model(model_folder: str, model_name: str, compiler_options: Dict[str, s
                 raise InvalidCacheError("Cache generated for incompatible CasADi version")
             else:
                 raise
+        except (pickle.UnpicklingError, EOFError, AttributeError, ImportError, IndexError):
+            raise InvalidCacheError("Cache file is incomplete or corrupt")
 
         if db["version"] != __version__:
             raise InvalidCacheError("Cache generated for a different version of pymoca")
